@@ -8,6 +8,7 @@ hold for every `B64` (where needed: every lawful one, `dec (enc x) = some x`), t
 statements for every `Codec`.
 -/
 import ConfModel.Lemmas.Convert
+import ConfModel.Lemmas.Base64
 import ConfModel.Generated.C18Facts
 namespace ConfModel.Props.C18
 open ConfModel.Convert ConfModel.ConvertSpec
@@ -164,6 +165,12 @@ gives the same headers. -/
 theorem md_input_untouched (c : B64) (md : MD) :
     (mdToHeadersSt c md).2 = md ∧
     (mdToHeadersSt c (mdToHeadersSt c md).2).1 = (mdToHeadersSt c md).1 := ⟨rfl, rfl⟩
+
+/-- The base64 instance the driver runs the model with (`Model/Base64.lean`: unpadded
+standard alphabet out, padded or unpadded in — connect's binary-header encoding) is lawful, so
+`md_roundtrip` applies to it. -/
+theorem connect_b64_lawful : (⟨ConfModel.Base64.encode, ConfModel.Base64.decode⟩ : B64).Lawful :=
+  ConfModel.Base64.decode_encode
 
 /-! ### witnesses of the repaired defects (the code as it was) -/
 
